@@ -136,14 +136,17 @@ def run(tier):
 
     # ---- trailing slash on directory selectors ----
     tree = trees.rich_tree(rng, hostile=True, n_hostile=6)
-    dirs = ["/dir1", "/dir1/sub", "/odd", "/maps", "/md", "/umn", "/odd/dir with space", "/emptydir"]
+    dirs = ["", "/dir1", "/dir1/sub", "/odd", "/maps", "/md", "/umn", "/odd/dir with space", "/emptydir"]
     reqs, meta = [], []
     for proto in gen.PROTOCOLS:
         for d in dirs:
-            for s in (d, d + "/"):
-                data, tls = gen.request_bytes(proto, s)
-                reqs.append({"data": gen.lat(data), "tls": tls})
-                meta.append((proto, d, s))
+            for srch in (None, "needle"):
+                if srch and proto in ("gemini",) and d == "":
+                    continue
+                for s in (d, d + "/"):
+                    data, tls = gen.request_bytes(proto, s, search=srch)
+                    reqs.append({"data": gen.lat(data), "tls": tls})
+                    meta.append((proto, d + ("?q" if srch else ""), s))
     r = impl_run([{"op": "world", "tree": tree, "config": trees.SITE_CONFIG, "requests": reqs}])[0]
     if not r["ok"]:
         raise RuntimeError(r["err"] + r.get("tb", ""))
@@ -173,6 +176,7 @@ def run(tier):
         if raw:
             queries.append(raw.decode("utf-8", "surrogateescape"))
     reqs, meta = [], []
+    queries += ["C++", "1+1=2", "a+b", "x;y", "k=v&k2=v2", "(paren)*!", "it's", "a,b:c@d", "slash/and?qm"]
     for sel in ("/echo.pyg", "/q.sh"):
         for proto in gen.PROTOCOLS:
             for q in queries:
@@ -181,6 +185,13 @@ def run(tier):
                 data, tls = gen.request_bytes(proto, sel, search=q)
                 reqs.append({"data": gen.lat(data), "tls": tls})
                 meta.append((proto, sel, q))
+                if proto == "gemini":
+                    # a client may leave every character RFC 3986 allows in a query component unescaped
+                    import urllib.parse as _up
+                    raw = _up.quote_from_bytes(q.encode("utf-8", "surrogateescape"), safe="+&=;:@!$'()*,/?-._~")
+                    data = ("gemini://gopher.example" + sel + "?" + raw + "\r\n").encode("ascii")
+                    reqs.append({"data": gen.lat(data), "tls": True})
+                    meta.append((proto, sel, q))
     r = impl_run([{"op": "requests_socket", "tree": qtree, "config": qcfg, "requests": reqs}])[0]
     if not r["ok"]:
         raise RuntimeError(r["err"] + r.get("tb", ""))
